@@ -486,3 +486,52 @@ def slow_decision_jobs(start_run=1):
                 jobs.append({"run": run, "scen": sc, "sched": s, "drain": True, "tag": "directed:slow_restart"})
                 run += 1
     return jobs
+
+
+# ---------------------------------------------------------------------------------------------
+# Directed schedules: every datastore write of a payment fails once (rejected / applied but reported failed), the run is
+# then pushed forward whatever the code does next (calls it should not have issued are served too, parts are created if
+# a pay is running), the node crashes with whatever is in flight, all or only some HTLCs are replayed and the clock runs
+# past the MPP timeout.  (C02, C05, C08, C09: "every single write fault ... and every resulting stored history".)
+def write_fault_jobs(start_run=1, probes=0):
+    jobs = []
+    run = start_run
+    ds = lambda key: {"kind": "ds", "hash": "h1", "key": key}
+    X = lambda sel, fault="none": {"a": "exec", "sel": sel, "fault": fault}
+    D = lambda sel: {"a": "deliver", "sel": sel}
+    lds = {"kind": "listds", "hash": "h1"}
+    payc = {"kind": "pay", "hash": "h1"}
+    cfg = dict(CFG_A)
+    p = pool(cfg, 10)
+    g1, g2 = p["good"][0], p["good"][1]
+    sc = {"cfg": cfg, "invs": invs_for(10), "htlcs": [g1, g2], "probe": [p["good"][2]]}
+    # the writes of one attempt, in order, by key; outcome of the pay decides the last two
+    for outcome in ("failed", "complete"):
+        writes = ["state", "att", "att", "state"] if outcome == "failed" else ["state", "att", "state", "att"]
+        for k in range(4):
+            for fault in ("reject", "lost"):
+                for replay in ([1], [1, 2], []):
+                    s = [{"a": "htlc", "i": 1}, X(lds), D(lds), {"a": "htlc", "i": 2}]
+                    for w in range(4):
+                        if w == 2:
+                            # between the second and the third write: the pay command
+                            s += [X(payc), {"a": "paypart", "sel": payc}]
+                            if k >= 2:
+                                s += [{"a": "partdone", "p": 1, "how": outcome, "code": 203},
+                                      {"a": "payreturn", "sel": payc, "outcome": outcome}, D(payc)]
+                        s += [X(ds(writes[w]), fault if w == k else "none"), D(ds(writes[w]))]
+                        if w == k:
+                            break
+                    # whatever the code does after the fault: serve it (steps that do not apply are skipped)
+                    s += [X(ds("att")), D(ds("att")), X(ds("state")), D(ds("state")), X(payc), {"a": "paypart", "sel": payc}]
+                    if replay:
+                        s += [{"a": "crash", "lose": False}]
+                        for i in replay:
+                            s += [{"a": "htlc", "i": i}]
+                        s += [X(lds), D(lds),
+                              X({"kind": "lists", "hash": "h1", "status": "pending"}), D({"kind": "lists", "hash": "h1", "status": "pending"}),
+                              X({"kind": "lists", "hash": "h1", "status": "complete"}), D({"kind": "lists", "hash": "h1", "status": "complete"})]
+                    s += [{"a": "tick"}] * (cfg["mpp"] + 1)
+                    jobs.append({"run": run, "scen": sc, "sched": s, "drain": True, "probes": probes, "tag": "directed:write_fault"})
+                    run += 1
+    return jobs
